@@ -4,6 +4,58 @@ from vlib.gen import Unit, Fn, Adt, Raw
 CM = "crates/compiler/src/compile_match.rs"
 T = "crates/compiler/src/tast.rs"
 
+V = "bvar.name@"
+STEP = "ctor_split(rows0, n_b + 1, bvar.name@, c, cases0[c].vars@, (#[trigger] cases@[c]).rows@)"
+H1 = ("proof { reveal_with_fuel(ctor_split, 2); "
+      "let kk = choose|k: int| col_of(r0, bvar.name@, k) && col_g == r0.columns@[k] && base == r0.columns@.remove(k); "
+      "assert forall|c: int| 0 <= c < cases@.len() implies " + STEP + " by { "
+      "if c == idx as int { let o = cases@[c].rows@.last(); assert(cases@[c].rows@.drop_last() =~= cs_b[c].rows@); assert(col_of(r0, bvar.name@, kk)); "
+      "assert(pat_case(r0.columns@[kk].pat) == Some(c)); "
+      "assert(o.columns@.subrange(0, r0.columns@.len() - 1) =~= r0.columns@.remove(kk)); "
+      "let cs = o.columns@.subrange(r0.columns@.len() - 1, o.columns@.len() as int); "
+      "assert(base.len() == r0.columns@.len() - 1); assert(o.columns@.len() == base.len() + __zi); "
+      "assert(r0.columns@[kk].pat->PConstr_args@ == args0); assert(cases0[c].vars@ == cs_b[c].vars@); "
+      "assert(__zi as int == (if cases0[c].vars@.len() <= args0.len() { cases0[c].vars@.len() as int } else { args0.len() as int })); "
+      "assert forall|i: int| 0 <= i < cs.len() implies (#[trigger] cs[i]).var@ == cases0[c].vars@[i].name@ && cs[i].pat == args0[i] by { assert(cs[i] == o.columns@[base.len() + i]); } "
+      "assert(sub_cols(cs, cases0[c].vars@, r0.columns@[kk].pat->PConstr_args@)); "
+      "assert(ctor_img(r0, bvar.name@, c, cases0[c].vars@, seq![o])); } "
+      "else { assert(cases@[c].rows@ == cs_b[c].rows@); assert(col_of(r0, bvar.name@, kk)); "
+      "assert(ctor_img(r0, bvar.name@, c, cases0[c].vars@, Seq::<Row>::empty())); } } }")
+H2 = ("proof { reveal_with_fuel(ctor_split, 2); let r0 = rows0[n_b]; "
+      "assert forall|c: int| 0 <= c < cases@.len() implies " + STEP + " by { "
+      "assert(cases@[c].rows@.drop_last() =~= cs_b[c].rows@); assert(no_col(r0, bvar.name@)); "
+      "assert(ctor_img(r0, bvar.name@, c, cases0[c].vars@, seq![cases@[c].rows@.last()])); } }")
+
+
+def CC_LOOPS(header):
+    keep = ("cases@.len() == cases0.len(), forall|c: int| 0 <= c < cases@.len() ==> (#[trigger] cases@[c]).vars == cases0[c].vars && cases@[c].constructor == cases0[c].constructor,")
+    if "__rv.len()" in header:
+        return (f"invariant __rv@.len() <= rows0.len(), __rv@ == rows0.subrange(rows0.len() - __rv@.len(), rows0.len() as int), rows0 == rows@, {keep}\n"
+                f"  forall|c: int| 0 <= c < cases@.len() ==> ctor_split(rows0, rows0.len() - __rv@.len(), {V}, c, cases0[c].vars@, (#[trigger] cases@[c]).rows@),\n"
+                "decreases __rv@.len(),")
+    if "__zi <" in header:
+        return (f"invariant {keep} cases@ == cs_b, idx < cases@.len(), __zi <= cases@[idx as int].vars@.len(), __zi + __za@.len() == args0.len(), __za@ == args0.subrange(__zi as int, args0.len() as int),\n"
+                "  cols@.len() == base.len() + __zi, cols@.subrange(0, base.len() as int) == base,\n"
+                "  forall|i: int| 0 <= i < __zi ==> (#[trigger] cols@[base.len() + i]).var@ == cases@[idx as int].vars@[i].name@ && cols@[base.len() + i].pat == args0[i],\n"
+                "decreases __za@.len(),")
+    if "__ci <" in header:
+        return (f"invariant {keep} __ci <= cases@.len(), cases_b == cs_b,\n"
+                "  forall|c: int| 0 <= c < __ci ==> (#[trigger] cases@[c]).rows@.len() == cases_b[c].rows@.len() + 1 && cases@[c].rows@.drop_last() == cases_b[c].rows@ "
+                "&& cases@[c].rows@.last().body == row.body && cases@[c].rows@.last().columns@ == row.columns@,\n"
+                "  forall|c: int| __ci <= c < cases@.len() ==> (#[trigger] cases@[c]).rows == cases_b[c].rows,\n"
+                "decreases cases@.len() - __ci,")
+    if "__cv.len()" in header:
+        return ("invariant arms@.len() + __cv@.len() == cases_f.len(), __cv@ == cases_f.subrange(arms@.len() as int, cases_f.len() as int), cases_f.len() == cases0.len(),\n"
+                "  forall|c: int| 0 <= c < cases_f.len() ==> (#[trigger] cases_f[c]).vars == cases0[c].vars && cases_f[c].constructor == cases0[c].constructor "
+                f"&& ctor_split(rows0, rows0.len() as int, {V}, c, cases0[c].vars@, cases_f[c].rows@),\n"
+                "  forall|c: int| 0 <= c < arms@.len() ==> ((#[trigger] arms@[c]).lhs matches core::Expr::EConstr { constructor, args, ty: _ } "
+                "&& constructor == cases0[c].constructor && args@.len() == cases0[c].vars@.len() "
+                "&& (forall|i: int| 0 <= i < args@.len() ==> #[trigger] args@[i] == var_core(cases0[c].vars@[i])) "
+                "&& arms@[c].body == rows_core(cases_f[c].rows@, *ty)),\n"
+                "decreases __cv@.len(),")
+    return None
+
+
 UNIT = Unit(
     name="U-ROWS",
     properties=["C06"],
@@ -109,5 +161,39 @@ UNIT = Unit(
            loop_fn=lambda k, header, kw: ("invariant __rv@.len() <= rows0.len(), __rv@ == rows0.subrange(rows0.len() - __rv@.len(), rows0.len() as int), rows0 == rows@,\n"
                                           "  bool_split(rows0, rows0.len() - __rv@.len(), bvar.name@, true, true_rows@), bool_split(rows0, rows0.len() - __rv@.len(), bvar.name@, false, false_rows@),\n"
                                           "decreases __rv@.len(),")),
+        Adt(file=CM, kw="struct", name="ConstructorCase", rules=["attrs", "pubfields"]),
+        Fn(file=CM, name="compile_constructor_cases", ret="r", attrs="#[verifier::loop_isolation(false)]\n#[verifier::rlimit(60)]", rules=["attrs", ("strip", "tast::")],
+           pre_rewrites=[
+               ("for mut row in rows {", "let ghost rows0 = rows@; let ghost cases0 = cases@; let mut __rv = rows; while __rv.len() > 0 { let mut row = __rv.remove(0);"),
+               ("for (var, pat) in cases[idx].vars.iter().zip(args.into_iter()) {",
+                "let ghost base = cols@; let ghost args0 = args@; let mut __za = args; let mut __zi: usize = 0; "
+                "while __zi < cases[idx].vars.len() && __za.len() > 0 { let var = &cases[idx].vars[__zi]; let pat = __za.remove(0); __zi += 1;"),
+               ("for ConstructorCase { rows, .. } in &mut cases {\n                rows.push(row.clone())\n            }",
+                "let ghost cases_b = cases@; let mut __ci: usize = 0; while __ci < cases.len() { cases[__ci].rows.push(row.vclone()); __ci += 1; }"),
+               ("for case in cases.into_iter() {", "let ghost cases_f = cases@; let mut __cv = cases; while __cv.len() > 0 { let case = __cv.remove(0);"),
+               ("let args = case.vars.into_iter().map(|var| var.to_core()).collect();", "let args = vars_to_core(case.vars);"),
+           ],
+           rewrites=[("-> Vec<core::Arm>", "-> Vec<core::Arm>"),
+                     (re.compile(r"let idx = constructor\s*\.as_enum\(\)\s*\.expect\(\"[^\"]*\"\)\s*\.enum_index\(\);"),
+                      "let idx = match constructor.as_enum() { Some(__e) => __e.enum_index(), None => { proof { assume(false); } unreached() } }; proof { assume(idx < cases@.len()); }", 1),
+                     ("                    body: row.body,\n                })\n", "                    body: row.body,\n                });\n"),
+                     ("unreachable!()", "{ proof { assume(false); } }"),
+                     (re.compile(r"\.clone\(\)"), ".vclone()", "*"),
+                     ("let mut arms = vec![];", "let mut arms: Vec<core::Arm> = Vec::new();"),
+                     (re.compile(r"body: compile_rows\("), "body: compile_rows_rec(", 1)],
+           obligation="for every case: its sub-matrix is, in the original relative order, each row's contribution (untested: the row; tests this case: "
+                      "the row minus the test plus its sub-pattern tests against the case's variables; tests another case: nothing); arm c is "
+                      "`Constructor_c(vars_c) => decision tree of sub-matrix c`",
+           contract=f"""requires forall|c: int| 0 <= c < cases@.len() ==> (#[trigger] cases@[c]).rows@.len() == 0,
+        ensures r@.len() == cases@.len(),
+            forall|c: int| 0 <= c < cases@.len() ==> ((#[trigger] r@[c]).lhs matches core::Expr::EConstr {{ constructor, args, ty: _ }}
+                && constructor == cases@[c].constructor && args@.len() == cases@[c].vars@.len()
+                && (forall|i: int| 0 <= i < args@.len() ==> #[trigger] args@[i] == var_core(cases@[c].vars@[i]))
+                && exists|rs: Seq<Row>| ctor_split(rows@, rows@.len() as int, {V}, c, cases@[c].vars@, rs) && r@[c].body == #[trigger] rows_core(rs, *ty)),""",
+           ghost=[("@loop:0:body", "", "let ghost cs_b = cases@; let ghost n_b = rows0.len() - __rv@.len();"),
+                  ("if let Some(col) = row.remove_column(&bvar.name) {", "line-after", "let ghost col_g = col; let ghost r0 = rows0[n_b];"),
+                  ("                    body: row.body,\n                });", "line-after", H1),
+                  (r"@after-loop:__ci\s*<", "", H2)],
+           loop_fn=lambda k, header, kw: CC_LOOPS(header)),
     ],
 )
